@@ -15,6 +15,8 @@
 package authn
 
 import (
+	"sort"
+
 	hcm "github.com/envoyproxy/go-control-plane/envoy/extensions/filters/network/http_connection_manager/v3"
 
 	"istio.io/istio/pilot/pkg/model"
@@ -82,7 +84,15 @@ func (b *Builder) ForPassthrough() []authn.MTLSSettings {
 	}
 
 	// Then generate the per-port passthrough filter chains.
-	for port := range b.applier.PortLevelSetting() {
+	// Visit the ports in ascending order, not in map order, so that the filter chains come out in the
+	// same order in every generation.
+	portLevel := b.applier.PortLevelSetting()
+	ports := make([]uint32, 0, len(portLevel))
+	for port := range portLevel {
+		ports = append(ports, port)
+	}
+	sort.Slice(ports, func(i, j int) bool { return ports[i] < ports[j] })
+	for _, port := range ports {
 		// Skip the per-port passthrough filterchain if the port is already handled by InboundMTLSConfiguration().
 		if !needPerPortPassthroughFilterChain(port, b.proxy) {
 			continue
